@@ -38,6 +38,8 @@ def run_driver(cfg, script_lines):
         for e in script_lines:
             if e == "N":
                 f.write("N\n")
+            elif isinstance(e, tuple) and e[0] == "U":
+                f.write("U %d %s\n" % (e[1], bytes(e[2]).hex() or "-"))
             else:
                 dec, line = e
                 f.write("L %d %s\n" % (1 if dec else 0, line.hex() or "-"))
@@ -50,6 +52,10 @@ def run_driver(cfg, script_lines):
 
 def newest_src_mtime():
     m = 0
+    for root, dirs, files in os.walk(os.path.join(kanirun.KANI_CRATE, "src")):
+        for f in files:
+            if f.endswith(".rs"):
+                m = max(m, os.path.getmtime(os.path.join(root, f)))
     for root, dirs, files in os.walk(REPO):
         dirs[:] = [d for d in dirs if d not in (".git", "target")]
         for f in files:
@@ -200,6 +206,8 @@ class ModelProxy:
                 a = z3.K(c.sort().domain(), z3.BitVecVal(0, c.sort().range().size()))
                 for i, x in enumerate(v):
                     a = z3.Store(a, z3.BitVecVal(i, c.sort().domain().size()), z3.BitVecVal(int(x), c.sort().range().size()))
+                for k2, x in (values.get(str(c) + "#sparse") or {}).items():
+                    a = z3.Store(a, z3.BitVecVal(int(k2), c.sort().domain().size()), z3.BitVecVal(int(x), c.sort().range().size()))
                 self.sub.append((c, a))
 
     def eval(self, e, model_completion=True):
@@ -240,7 +248,7 @@ class SolvedProxy:
         return self._m
 
 
-def _child_solve(constraints, consts, timeout_s, w_fd, sat_backend):
+def _child_solve(constraints, consts, timeout_s, w_fd, sat_backend, seed=None):
     """runs in the forked child: z3 first (short budget when a SAT back end follows), then bit-blast -> CNF -> kissat for the
     hard UNSAT cases; a kissat SAT answer is turned into a model by z3 with the remaining budget"""
     import subprocess, tempfile
@@ -250,6 +258,10 @@ def _child_solve(constraints, consts, timeout_s, w_fd, sat_backend):
         s = z3.Solver()
         first = min(timeout_s, 25) if sat_backend else timeout_s
         s.set("timeout", int(first * 1000))
+        if seed:
+            s.set("random_seed", int(seed))
+            z3.set_param("smt.random_seed", int(seed))
+            z3.set_param("sat.random_seed", int(seed))
         for c in constraints:
             s.add(c)
         r = str(s.check())
@@ -288,7 +300,17 @@ def _child_solve(constraints, consts, timeout_s, w_fd, sat_backend):
                         n = m.eval(z3.Length(c), model_completion=True).as_long()
                         vals[str(c)] = [m.eval(c[z3.IntVal(i)], model_completion=True).as_long() for i in range(min(n, 2000))]
                     elif z3.is_array(c):
-                        vals[str(c)] = [m.eval(z3.Select(c, z3.BitVecVal(i, c.sort().domain().size())), model_completion=True).as_long() for i in range(256)]
+                        dw = c.sort().domain().size()
+                        vals[str(c)] = [m.eval(z3.Select(c, z3.BitVecVal(i, dw)), model_completion=True).as_long() for i in range(256)]
+                        # and at the positions the model's own index variables point to (and their neighbours)
+                        sp = {}
+                        for c2 in consts:
+                            if z3.is_bv(c2) and c2.size() == dw:
+                                v2 = m.eval(c2, model_completion=True).as_long()
+                                for d in (-1, 0, 1):
+                                    k2 = (v2 + d) % (1 << dw)
+                                    sp[str(k2)] = m.eval(z3.Select(c, z3.BitVecVal(k2, dw)), model_completion=True).as_long()
+                        vals[str(c) + "#sparse"] = sp
                     elif z3.is_bool(c):
                         vals[str(c)] = z3.is_true(m.eval(c, model_completion=True))
                     elif z3.is_bv(c) or z3.is_int(c):
@@ -351,6 +373,59 @@ def solve_many(problems, timeout_s=120, sat_backend=False):
         d = json.loads(j["buf"].decode())
         out.append((SolvedProxy(ModelProxy(j["consts"], d["vals"]) if d["r"] == "sat" else None), d["r"], dt, d.get("note", "")))
     return out
+
+
+def solve_portfolio(constraints, timeout_s=120, seeds=(0, 1, 2, 3)):
+    """the same query under several solver seeds in parallel child processes; the first definite answer wins (solver run time on
+    the array/bit-vector queries of layer U varies by two orders of magnitude with the seed)"""
+    import select
+    cons = list(constraints)
+    consts = collect_consts(cons)
+    t0 = time.time()
+    jobs = []
+    for sd in seeds:
+        r_fd, w_fd = os.pipe()
+        pid = os.fork()
+        if pid == 0:
+            os.close(r_fd)
+            _child_solve(cons, consts, timeout_s, w_fd, False, seed=sd)
+            os._exit(0)
+        os.close(w_fd)
+        jobs.append({"pid": pid, "fd": r_fd, "buf": b"", "done": False})
+    deadline = t0 + timeout_s + 30
+    answer = None
+    while answer is None and not all(j["done"] for j in jobs) and time.time() < deadline:
+        fds = [j["fd"] for j in jobs if not j["done"]]
+        rd, _, _ = select.select(fds, [], [], 1.0)
+        for j in jobs:
+            if j["done"] or j["fd"] not in rd:
+                continue
+            chunk = os.read(j["fd"], 1 << 20)
+            if chunk:
+                j["buf"] += chunk
+            else:
+                j["done"] = True
+                try:
+                    d = json.loads(j["buf"].decode())
+                    if d.get("r") in ("sat", "unsat"):
+                        answer = d
+                        break
+                except Exception:
+                    pass
+    for j in jobs:
+        try:
+            os.kill(j["pid"], 9)
+        except ProcessLookupError:
+            pass
+        try:
+            os.waitpid(j["pid"], 0)
+        except ChildProcessError:
+            pass
+        os.close(j["fd"])
+    dt = time.time() - t0
+    if answer is None:
+        return SolvedProxy(None), "unknown", dt
+    return SolvedProxy(ModelProxy(consts, answer.get("vals", {})) if answer["r"] == "sat" else None), answer["r"], dt
 
 
 def solve(constraints, timeout_s=120, sat_backend=False):
